@@ -24,6 +24,8 @@ func rulesExtra3(c *Ctx) {
 	c.ruleX4()
 	c.ruleB6()
 	c.ruleG8()
+	c.ruleG9()
+	c.ruleP5()
 }
 
 func successNil(in ssa.Instruction) bool {
@@ -262,15 +264,52 @@ func (c *Ctx) ruleB6() {
 			if !ok || !isParamValue(fa.X, optsP) {
 				return
 			}
+			field := fieldVarOf(fa)
 			mc, ok := st.Val.(*ssa.MakeClosure)
 			if !ok {
+				// a value computed by a helper FROM the previous value of the same field
+				// (options.F = wrap(options.F, …)) chains just the same
+				if call, isCall := st.Val.(*ssa.Call); isCall && strings.HasPrefix(typeStr(fieldVarOf(fa).Type()), "func(") {
+					var prev0 []ssa.Value
+					eachInstr(f, func(x ssa.Instruction) {
+						if u, ok := x.(*ssa.UnOp); ok && u.Op == token.MUL {
+							if fa3, ok := u.X.(*ssa.FieldAddr); ok && fieldVarOf(fa3) == field && isParamValue(fa3.X, optsP) {
+								prev0 = append(prev0, u)
+							}
+						}
+					})
+					dp := derived(prev0, flowOpts{})
+					wraps := false
+					for _, a := range call.Call.Args {
+						if dp[a] {
+							wraps = true
+						}
+					}
+					// or the helper is handed the options themselves and reads the field
+					if h := call.Call.StaticCallee(); h != nil && h.Blocks != nil {
+						for i, a := range call.Call.Args {
+							if isParamValue(a, optsP) && i < len(h.Params) {
+								for _, hh := range withClosures(h) {
+									eachInstr(hh, func(x ssa.Instruction) {
+										if fa4, ok := x.(*ssa.FieldAddr); ok && fieldVarOf(fa4) == field {
+											wraps = true
+										}
+									})
+								}
+							}
+						}
+					}
+					if wraps {
+						bad = true
+						c.bad("B6", cons, st.Pos(), fmt.Sprintf("the caller's options.%s is replaced by a value built from its previous value: when one options value is used to open several databases the hooks chain, so closing one database also runs its siblings' hooks (unregistering them from the instance while they are still open)", field.Name()))
+					}
+				}
 				return
 			}
 			fn, _ := mc.Fn.(*ssa.Function)
 			if fn == nil {
 				return
 			}
-			field := fieldVarOf(fa)
 			// does the closure read the same field of the options it is stored into?
 			reads := false
 			eachInstr(fn, func(x ssa.Instruction) {
@@ -359,4 +398,128 @@ func (c *Ctx) ruleG8() {
 		}
 	}
 	_ = token.NoPos
+}
+
+// G9 — the store's own context has no parent. Close is idempotent because it starts by
+// testing that context: if the context can be cancelled by anything other than Close (a
+// parent handed in by the opener or the instance), the test is true although Close never
+// ran, and every later Close/Drop returns without releasing anything.
+func (c *Ctx) ruleG9() {
+	st := c.storeType()
+	if st == nil {
+		return
+	}
+	n := 0
+	for _, f := range c.methodsOf(st) {
+		if f.Parent() != nil {
+			continue
+		}
+		eachCall(f, func(call ssa.CallInstruction) {
+			full := calleeFull(call)
+			if full != "context.WithCancel" && full != "context.WithTimeout" && full != "context.WithDeadline" {
+				return
+			}
+			if call.Value() == nil {
+				return
+			}
+			// stored into a context field of the receiver?
+			d := derived([]ssa.Value{call.Value()}, flowOpts{})
+			toField := false
+			for v := range d {
+				if refs := v.Referrers(); refs != nil {
+					for _, r := range *refs {
+						if s, ok := r.(*ssa.Store); ok && s.Val == v {
+							if fa, ok := s.Addr.(*ssa.FieldAddr); ok && isRecv(f, fa.X) && typeStr(fieldVarOf(fa).Type()) == "context.Context" {
+								toField = true
+							}
+						}
+					}
+				}
+			}
+			if !toField {
+				return
+			}
+			n++
+			cons := fnKey(f) + "→store-context#root"
+			parent := call.Common().Args[0]
+			if pc, ok := parent.(*ssa.Call); ok && (calleeFull(pc) == "context.Background" || calleeFull(pc) == "context.TODO") && full == "context.WithCancel" {
+				c.ok("G9", cons, call.Pos(), "the store's context is a root context cancelled only by the store's own cancel function")
+			} else {
+				c.bad("G9", cons, call.Pos(), "the store's own context is derived from a context it does not control (or expires by itself): Close begins by testing that context to be idempotent, so once the parent is cancelled every Close/Drop returns immediately without stopping the replicator, closing the emitters and the cache, or ending the legacy subscribers")
+			}
+		})
+	}
+	c.floor("G9", "store context creations", n, 1)
+}
+
+// P5 — sibling cache writes agree on Sync. Today no cache write is followed by a datastore
+// Sync: a Put is relied upon to be durable when it returns. If SOME constant-key Put sites are
+// followed by a Sync (because the cache was made write-buffered), every other one is a
+// contradiction: its key can be lost by a crash after the write was acknowledged.
+func (c *Ctx) ruleP5() {
+	type site struct {
+		call   ssa.CallInstruction
+		key    string
+		synced bool
+		fn     *ssa.Function
+	}
+	var sites []site
+	for _, f := range c.RepoFns {
+		if c.isTestFile(f.Pos()) {
+			continue
+		}
+		eachCall(f, func(call ssa.CallInstruction) {
+			k, ok := c.cachePutKey(call)
+			if !ok {
+				return
+			}
+			s := site{call: call, key: k, fn: f}
+			// a Sync on the same key reachable after the Put (in this function or a caller one level up is not needed today)
+			isSync := func(in ssa.Instruction) bool {
+				sc, ok := in.(ssa.CallInstruction)
+				if !ok || !c.isMethodOn(sc, "Sync", "github.com/ipfs/go-datastore.Datastore") && !c.isMethodOn(sc, "Sync", ifaceDSWrite) {
+					return false
+				}
+				a := argsOf(sc)
+				if len(a) < 2 {
+					return false
+				}
+				if kk, ok := dsKeyOf(a[1]); ok {
+					return kk == k
+				}
+				return true // a computed key: assume it may be this one
+			}
+			if hit, _ := findPath(f, after(call), nil, isSync, nil); hit != nil {
+				s.synced = true
+			}
+			sites = append(sites, s)
+		})
+	}
+	group := func(ctl bool) {
+		var with, without []site
+		for _, s := range sites {
+			if c.isControlFn(s.fn) != ctl {
+				continue
+			}
+			if s.synced {
+				with = append(with, s)
+			} else {
+				without = append(without, s)
+			}
+		}
+		if len(with) == 0 {
+			if !ctl {
+				c.ok("P5", "cache-writes#sync-agreement", token.NoPos, fmt.Sprintf("no cache write depends on a later Sync (%d constant-key Put sites, all relied upon to be durable on return)", len(without)))
+			}
+			return
+		}
+		for _, s := range without {
+			c.bad("P5", fnKey(s.fn)+"→Put("+s.key+")#synced-like-siblings", s.call.Pos(), fmt.Sprintf("%d other cache write(s) are followed by a datastore Sync — i.e. the cache may hold a Put back — but the write of %q is not: after it has been acknowledged (write returned, batch announced as replicated) a crash loses it", len(with), s.key))
+		}
+		for _, s := range with {
+			c.ok("P5", fnKey(s.fn)+"→Put("+s.key+")#synced-like-siblings", s.call.Pos(), "cache write followed by Sync")
+		}
+	}
+	group(false)
+	group(true)
 }
